@@ -89,8 +89,85 @@ let tasklog () =
      done
    with End_of_file -> ())
 
+
+(* mq: "case <parts> <tok> <tok> ..." with the token language of `gv_sched mq`
+   (f<p>:<k> | p<p>[ .. ] | t<p>); prints the events separated by ';' in the harness' format.
+   Every state and result is computed by the extracted q_* functions. *)
+type mqop = MFin of int * int | MPoll of int * mqop list | MTake of int
+let rec mq_parse (toks : string array) (pos : int ref) : mqop list =
+  let ops = ref [] in
+  let stop = ref false in
+  while not !stop && !pos < Array.length toks do
+    let t = toks.(!pos) in
+    if t = "]" then stop := true
+    else begin
+      incr pos;
+      let body = String.sub t 1 (String.length t - 1) in
+      (match t.[0] with
+       | 'f' -> (match split_on ':' body with
+           | [a; b] -> ops := MFin (int_of_string a, int_of_string b) :: !ops
+           | _ -> failwith "bad f token")
+       | 't' -> ops := MTake (int_of_string body) :: !ops
+       | 'p' ->
+         let p = int_of_string (String.sub body 0 (String.length body - 1)) in
+         let sub = mq_parse toks pos in
+         if !pos >= Array.length toks || toks.(!pos) <> "]" then failwith "unclosed [";
+         incr pos;
+         ops := MPoll (p, sub) :: !ops
+       | _ -> failwith ("bad token " ^ t))
+    end
+  done;
+  List.rev !ops
+let mq_state (q : mq) : string =
+  Printf.sprintf "%d/%d/%d/%d" (int_of_nat q.q_runs) (int_of_nat q.q_remaining) (int_of_nat q.q_merging)
+    (if q_complete q then 1 else 0)
+let mq_woken (l : nat list) : string = String.concat "," (List.map (fun i -> string_of_int (int_of_nat i)) l)
+let mq () =
+  (try
+     while true do
+       let line = input_line stdin in
+       match split_ws line with
+       | "case" :: parts :: toks ->
+         let q = ref (q_new (nat_of_int (int_of_string parts))) in
+         let out = ref [Printf.sprintf "init | %s" (mq_state !q)] in
+         let emit s = out := s :: !out in
+         let rec exec ops =
+           List.iter (fun op ->
+               match op with
+               | MFin (p, k) ->
+                 let (q', ok) = q_add !q (nat_of_int k) in
+                 q := q';
+                 emit (Printf.sprintf "f%d %s k=%d w= | %s" p (if ok then "ok" else "err") k (mq_state !q))
+               | MPoll (p, sub) ->
+                 let (q', r) = q_poll !q (nat_of_int p) in
+                 q := q';
+                 (match r with
+                  | QFinished -> emit (Printf.sprintf "p%d finished w= | %s" p (mq_state !q))
+                  | QPending -> emit (Printf.sprintf "p%d pending w= | %s" p (mq_state !q))
+                  | QPopped ->
+                    emit (Printf.sprintf "p%d pop w= | %s" p (mq_state !q));
+                    exec sub;
+                    let (q'', w) = q_merge_done !q in
+                    q := q'';
+                    emit (Printf.sprintf "p%d merged w=%s | %s" p (mq_woken w) (mq_state !q)))
+               | MTake p ->
+                 let ((q', r), w) = q_take !q in
+                 q := q';
+                 emit (Printf.sprintf "t%d %s w=%s | %s" p
+                         (match r with QErr -> "err" | QSome -> "some" | QNone -> "none") (mq_woken w) (mq_state !q)))
+             ops in
+         let arr = Array.of_list toks in
+         let pos = ref 0 in
+         exec (mq_parse arr pos);
+         print_endline (String.concat ";" (List.rev !out))
+       | [] -> ()
+       | _ -> failwith ("bad line " ^ line)
+     done
+   with End_of_file -> ())
+
 let () =
   match Array.to_list Sys.argv with
   | [_; "stack"] -> stack ()
   | [_; "tasklog"] -> tasklog ()
-  | _ -> prerr_endline "usage: sched <stack|tasklog>"; exit 2
+  | [_; "mq"] -> mq ()
+  | _ -> prerr_endline "usage: sched <stack|tasklog|mq>"; exit 2
